@@ -36,7 +36,7 @@ def events_check(prop):
         bounds=dict(quick="union of five exhaustive explorations, 2 descriptors unless stated: (<=5 main-context operations, <=2 deviations, <=1 callback action), (<=4, <=2, <=2), (<=5, <=1, <=2), (5,2,1) with the alternative timer alphabet (events_timer_register_double; 30-day timer beyond INT_MAX ms), and (5,1,1) with 4 descriptors (poll answers then include: one descriptor hung up AND exactly one other event ready)",
                     thorough="union of six exhaustive explorations: (<=6 ops, <=2 deviations, <=2 callback actions, 2 descriptors), (5,2,2) with 3 descriptors, (7,2,1), (5,3,2), (4,2,3), and (5,2,2) with the alternative timer alphabet"),
         assumptions=["poll(2), clock_gettime(2) replaced by the harness (link-time interposition)",
-                     "<=3 immediates, <=3 descriptors x 2 directions, <=2 timers live at once; timeouts {0, 1.5 ms, 3 ms, 1 h}, in the -alt runs {0, 2^-9 s, 2147483.875 s (inside the second at which the ms time-out stops fitting an int), 30 days} registered as doubles; clock starts 2 ms before a second boundary"],
+                     "<=3 immediates, <=3 descriptors x 2 directions, <=2 timers live at once; timeouts {0, 1.5 ms, 3 ms, 1 h}, in the -alt runs {0, 1 - 2^-22 s (999999 us after truncation), 2147483.875 s (inside the second at which the ms time-out stops fitting an int), 30 days} registered as doubles; clock starts 2 ms before a second boundary"],
     )
 
 
